@@ -7,7 +7,7 @@ sys.path.insert(0, os.path.join(VERIF, 'tools', 'vlib'))
 sys.path.insert(0, os.path.join(VERIF, 'tools', 'props'))
 props = [json.loads(l) for l in open(os.path.join(VERIF, 'properties.jsonl'))]
 ids = [p['id'] for p in props]
-mods = sorted(f[:-3] for f in os.listdir(os.path.join(VERIF, 'tools', 'props')) if f.startswith('C') and f.endswith('.py'))
+mods = json.load(open(os.path.join(VERIF, 'tools', 'claimed.json')))
 na = json.load(open(os.path.join(VERIF, 'tools', 'not_applicable.json')))
 hooks = json.load(open(os.path.join(VERIF, 'tools', 'hooks.json')))
 checks = []
